@@ -595,6 +595,8 @@ def fallback(ctx):
 
 
 def run(ctx):
+    from . import lean as _lean
+    _lean.require(ctx, "Sums.lean", ['prefix_unique', 'sum_cong_rule', 'sum_prefix_nonneg', 'dot_bound', 'dot_nonneg', 'gram_psd'])
     equivariance(ctx)
     dof_structure(ctx)
     updates(ctx)
@@ -607,7 +609,7 @@ def run(ctx):
               "np.linalg.solve with a symmetric positive-definite scale: Mahalanobis distances >= 0; non-degenerate data keep the scale "
               "positive definite (Gram form of spanning differences) — assumed, not machine-checked",
               "np.median lies between the coordinate minima and maxima; np.cov is symmetric positive semi-definite",
-              "L-SUM lemmas (congruence, non-negativity, weighted-average bound)", "A1: reals; conditioning over scalings 1e-6..1e6 is a "
+              "L-SUM rules: each statement is machine-checked in Lean/Mathlib over Finset sums (lemmas/Sums.lean; prefix_unique identifies the prefix function with the finite sum); what stays trusted is the transcription of those statements into the z3 axioms/rules of pyvc/theories/sums.py", "A1: reals; conditioning over scalings 1e-6..1e6 is a "
               "floating-point matter exercised only by the bounded native replayer")
     ctx.undecided_clauses += ["'recovers the generating parameters of large t-distributed samples' is statistical consistency: not a contract on a call",
                               "positive definiteness (strict) of the scale matrix under non-degeneracy is not machine-checked (symmetric, Gram form and "
